@@ -108,6 +108,10 @@ def replay(cfg, events):
                         ds_.update("DELETE WHERE { GRAPH %s { ?s ?p ?o } }" % name.n3())
                     else:
                         raise ValueError(how)
+                elif how == "cg_ctx":
+                    # the ConjunctiveGraph itself given as the graph of the quad pattern: that names ITS default graph (an empty graph of its own, "gx")
+                    cg_ = ConjunctiveGraph(store=aud(e["w"]))
+                    cg_.remove(pat + (cg_,))
                 elif e["g"] == "*":
                     ConjunctiveGraph(store=aud(e["w"])).remove(pat)
                 elif (i + len(events)) % 2 == 0:
